@@ -1,4 +1,5 @@
 import OpcuaModel.Model.NodeId
+import OpcuaModel.Model.Parse
 /-! # Meaning of the Python primitives the translator's output mentions (hand written; trusted base of tie A) -/
 namespace Opcua
 
@@ -64,5 +65,28 @@ class PyFormat (α : Type) where
 instance : PyFormat Str := ⟨id⟩
 instance : PyFormat Int := ⟨pyStrInt⟩
 def pyFormat {α : Type} [PyFormat α] (x : α) : Str := PyFormat.fmt x
+
+class PyContains (γ : Type) (α : outParam Type) where
+  has : γ → α → Bool
+instance : PyContains (List Str) Str := ⟨fun l x => decide (x ∈ l)⟩
+instance : PyContains (List (Int × Int)) Int := ⟨fun d k => (lookup k d).isSome⟩
+/-- `x in c` for a list (membership) or a dict (key membership) -/
+def pyContains {γ α : Type} [PyContains γ α] (c : γ) (x : α) : Bool := PyContains.has c x
+
+def pyListAppend (l : List Str) (x : Str) : List Str := l ++ [x]
+/-- `l.index(x)`: `ValueError` when absent -/
+def pyListIndex (l : List Str) (x : Str) : Except PyErr Int :=
+  if x ∈ l then .ok ((l.idxOf x : Nat) : Int) else .error .valueError
+/-- `d[k] = v`: replaces the value of an existing key in place, otherwise appends (insertion order) -/
+def pyDictSet (d : List (Int × Int)) (k v : Int) : List (Int × Int) :=
+  if (lookup k d).isSome then d.map (fun p => if p.1 = k then (k, v) else p) else d ++ [(k, v)]
+/-- `for i, x in enumerate(xs): state = body(i, x, state)` with a body that can raise -/
+def pyEnumFoldE {α σ : Type} (xs : List α) (init : σ) (f : Nat → α → σ → Except PyErr σ) : Except PyErr σ :=
+  let rec go : Nat → List α → σ → Except PyErr σ
+    | _, [], s => .ok s
+    | i, x :: r, s => match f i x s with
+      | .error e => .error e
+      | .ok s' => go (i + 1) r s'
+  go 0 xs init
 
 end Opcua
